@@ -1388,6 +1388,7 @@ func (m *Manager) AddPoolTransactions(txns []types.Transaction) (known bool, err
 		return known, err
 	}
 
+	n, weight := len(m.txpool.txns), m.txpool.weight
 	for _, txn := range txns {
 		txid := txn.ID()
 		if _, ok := m.txpool.indices[txid]; ok {
@@ -1395,6 +1396,13 @@ func (m *Manager) AddPoolTransactions(txns []types.Transaction) (known bool, err
 		}
 		ts := m.store.SupplementTipTransaction(txn)
 		if err := consensus.ValidateTransaction(m.txpool.ms, txn, ts); err != nil {
+			// remove the earlier transactions of the set again
+			for _, added := range m.txpool.txns[n:] {
+				delete(m.txpool.indices, added.ID())
+			}
+			clear(m.txpool.txns[n:])
+			m.txpool.txns = m.txpool.txns[:n]
+			m.txpool.weight = weight
 			m.txpool.ms = nil // force revalidation next time the pool is queried
 			return false, fmt.Errorf("transaction %v conflicts with pool: %w", txid, err)
 		}
@@ -1468,12 +1476,20 @@ func (m *Manager) AddV2PoolTransactions(basis types.ChainIndex, txns []types.V2T
 		return known, err
 	}
 
+	n, weight := len(m.txpool.v2txns), m.txpool.weight
 	for _, txn := range txns {
 		txid := txn.ID()
 		if _, ok := m.txpool.indices[txid]; ok {
 			continue // skip transactions already in the pool
 		}
 		if err := consensus.ValidateV2Transaction(m.txpool.ms, txn); err != nil {
+			// remove the earlier transactions of the set again
+			for _, added := range m.txpool.v2txns[n:] {
+				delete(m.txpool.indices, added.ID())
+			}
+			clear(m.txpool.v2txns[n:])
+			m.txpool.v2txns = m.txpool.v2txns[:n]
+			m.txpool.weight = weight
 			m.txpool.ms = nil // force revalidation next time the pool is queried
 			return false, fmt.Errorf("transaction %v conflicts with pool: %w", txid, err)
 		}
